@@ -126,6 +126,19 @@ pub struct RLVector {
 }
 
 impl RLVector {
+    /// Verification hook: assembles a vector from its serialized parts, rebuilding the sample indexes as `load` does.
+    #[cfg(simple_sds_verif)]
+    #[doc(hidden)]
+    pub fn verif_from_parts(len: usize, ones: usize, samples: IntVector, data: IntVector) -> RLVector {
+        let sample_blocks = samples.len() / 2;
+        let rank_index = SampleIndex::new((0..sample_blocks).map(|block| samples.get(2 * block + 1) as usize), len);
+        let select_index = SampleIndex::new((0..sample_blocks).map(|block| samples.get(2 * block) as usize), ones);
+        let select_zero_index = SampleIndex::new((0..sample_blocks).map(|block| (samples.get(2 * block + 1) - samples.get(2 * block)) as usize), len - ones);
+        RLVector {
+            len, ones, rank_index, select_index, select_zero_index, samples, data,
+        }
+    }
+
     /// Number of bits in a code unit.
     pub const CODE_SIZE: usize = 4;
 
